@@ -495,7 +495,24 @@ def r07_78(rep, prog):
         where = '%s:%s' % (f.file, sx.line(n))
         inst = '%s:out_range_impl counts the self-delimiting prefix from the size of the last frame (`%s`)' % (prog.config, sx.show(n)[:50])
         (rep.holds if ok else rep.violated)('R07.7', inst, where, 'size tested: `%s`' % sx.show(other), **({} if ok else {'key': 'selfdelim-size:%s' % sx.show(other)}))
-    if len(sites) < 2:
+    # sibling agreement: every plain (re)initialisation of the running size that can execute under self-delimited
+    # framing accounts for the two-byte form of the length prefix, as its siblings do
+    dropped = 0
+    for b, i, n in cf.find(lambda n: n[0] == 'assign' and sx.kind(sx.strip_paren(n[1])) == 'local' and sx.strip_paren(n[1])[1] == 'tot_size'):
+        if any(x[0] == b and x[1] == i for x in sites):
+            continue
+        facts = T.stable_facts(cf, b, i)
+        if any(a == ('==', ('param', psd), ('int', 0)) for a in facts):
+            continue
+        if any(m[0] == 'bin' and m[1] in ('>=', '<=', '<', '>') and (sx.int_val(m[2]) in (252, 251) or sx.int_val(m[3]) in (252, 251)) for m in sx.walk(n[2])):
+            continue
+        if sites:
+            dropped += 1
+            rep.violated('R07.7', '%s:out_range_impl every (re)initialisation of the running size under self-delimited framing counts the length prefix like its siblings (`%s`)' % (prog.config, sx.show(n)[:50]),
+                         '%s:%s' % (f.file, sx.line(n)),
+                         'this initialisation can run with self_delimited != 0 but never adds the second prefix byte for a last frame of 252 bytes or more, while the initialisation at line %s does: the two passes disagree on the packet size, and the size returned to the multistream encoder is one byte short' % sx.line(sites[0][2]),
+                         key='selfdelim-init:%s' % sx.show(n)[:40])
+    if len(sites) + dropped < 2:
         rep.unresolved('R07.7', 'expected two accountings of the self-delimiting size prefix, found %d' % len(sites))
     for fname, gate in (('opus_packet_unpad', 'opus_repacketizer_cat'), ('opus_multistream_packet_unpad', 'opus_repacketizer_cat_impl')):
         g = prog.fn(fname)
